@@ -298,6 +298,42 @@ func c13NilShadow(r *Run) {
 	}
 }
 
+// an operator expression that begins with a negation: the ! belongs to its operand, not to the whole text, at every
+// position (t is true, f false, a is 3, n0 is 0)
+func c13LeadingNot(r *Run) {
+	for _, c := range []struct {
+		text string
+		want bool
+	}{
+		{"!t && f", false}, {"!f && t", true}, {"!t && t", false}, {"!f && f", false}, {"!t || t", true}, {"!t || f", false}, {"!f || f", true},
+		{"!t == f", true}, {"!f == f", false}, {"!f && t && f", false}, {"!t || f || t", true}, {"!(t && f)", true}, {"!(t || f)", false},
+		{"!t ? 'y' : ''", false}, {"!f ? 'y' : ''", true}, {"!f && a > 2", true}, {"!t && a > 2", false}, {"!f && n0 == 0", true}, {"!t != t", true},
+	} {
+		for _, p := range c13Positions {
+			src := fmt.Sprintf(p.tpl, c.text)
+			out, err := c03Render(src, c13Env())
+			m := c13Txt.FindStringSubmatch(out)
+			var got bool
+			switch p.name {
+			case "interp":
+				got = m != nil && (strings.TrimSpace(m[2]) == "true" || strings.TrimSpace(m[2]) == "y")
+			case "bound":
+				got = m != nil && c13Att.MatchString(m[1])
+			case "v-show":
+				got = m != nil && !strings.Contains(strings.ReplaceAll(m[1], " ", ""), "display:none")
+			default:
+				got = m != nil
+			}
+			r.Eval("leading-not:"+p.name+":"+c.text, true, nil)
+			r.Count("stream:leading-not(oracle only)")
+			if err != nil || got != c.want {
+				r.Fail("the value at this position differs from the conventional evaluation of the expression", map[string]string{"oracle": "denote", "class": "leading-not", "position": p.name},
+					map[string]any{"expression": c.text, "position": p.name, "template": src, "observed": got, "expected": c.want, "output": out, "err": fmt.Sprint(err)})
+			}
+		}
+	}
+}
+
 func init() { streams["C13"] = runC13 }
 
 func runC13(r *Run) {
@@ -374,6 +410,7 @@ func runC13(r *Run) {
 	c13Floats(r)
 	c13Mixed(r)
 	c13NilShadow(r)
+	c13LeadingNot(r)
 	// ---------- positions ----------
 	n := 900
 	if r.Thorough() {
